@@ -93,8 +93,7 @@ def build_sweep(tier, profile, out):
         if profile == "wrap":
             cmd += ["--profile", "wrap"]
         t0 = time.time()
-        p = subprocess.run(cmd, cwd=BFSWEEP, env=env, stdout=subprocess.PIPE, stderr=subprocess.STDOUT, text=True,
-                           timeout=3000)
+        p = C.cargo(cmd, cwd=BFSWEEP, env=env, timeout=3000)
         if p.returncode != 0:
             # the text of bitfield_unit.rs not compiling is data about the code under test only if the
             # repository's own build accepted it; C.build() passed, so this is our harness
@@ -591,8 +590,8 @@ def mutants_selftest(recs):
         env.pop("RUSTFLAGS", None)
         env.update({"BFSWEEP_CONST_SET": lst, "BFSWEEP_SRC": mp, "CARGO_ENCODED_RUSTFLAGS": ""})
         tdir = os.path.join(C.TARGET, "bfsweep-mutant")
-        p = subprocess.run(["cargo", "build", "--offline", "-q", "--target-dir", tdir, "--profile", "wrap"], cwd=BFSWEEP,
-                           env=env, stdout=subprocess.PIPE, stderr=subprocess.STDOUT, text=True, timeout=1200)
+        p = C.cargo(["cargo", "build", "--offline", "-q", "--target-dir", tdir, "--profile", "wrap"], cwd=BFSWEEP,
+                    env=env, timeout=1200)
         if p.returncode != 0:
             out[name] = "mutant does not compile"
             continue
